@@ -76,6 +76,9 @@ def nontrivial(h, v):
 
 
 def record(rep, h, v):
+    if v.get('unavailable'):
+        rep.add_counts(rep.probes, {'hist_driver_unavailable(signature changed; pipeline part still runs)': 1})
+        return
     rep.add_counts(rep.probes, {'hist_steps': v.get('steps', 0), 'hist_cap_binding_steps': v.get('binding_steps', 0),
                                 'hist_two_list_histories': 1 if len(h['lists']) > 1 else 0,
                                 'hist_cap_changes': sum(1 for a, b in zip(h['ops'], h['ops'][1:]) if a['cap'] != b['cap'])})
